@@ -10,6 +10,7 @@ import (
 	"fmt"
 	"os"
 	"path/filepath"
+	"runtime"
 	"sort"
 	"strings"
 	"time"
@@ -19,19 +20,19 @@ import (
 
 // RunResult is what one simulated run reports.
 type RunResult struct {
-	Viol       *core.Violation
-	Key        string // finding signature of the violation (stable across seeds), "" if none
-	Infra      string // harness trouble: neither pass nor verdict
-	Hang       bool
-	Stats      map[string]int
-	Sig        string // schedule/fault signature (distinctness measure)
-	Nontrivial bool
-	Steps      int
-	SimNanos   int64
-	Hash       uint64
-	Trace      []string
-	Summary    string // one-line description of the case (for evidence samples)
-	States     []string // abstract states seen at quiescent points
+	Viol         *core.Violation
+	Key          string // finding signature of the violation (stable across seeds), "" if none
+	Infra        string // harness trouble: neither pass nor verdict
+	Hang         bool
+	Stats        map[string]int
+	Sig          string // schedule/fault signature (distinctness measure)
+	Nontrivial   bool
+	Steps        int
+	SimNanos     int64
+	Hash         uint64
+	Trace        []string
+	Summary      string   // one-line description of the case (for evidence samples)
+	States       []string // abstract states seen at quiescent points
 	Inconclusive int
 	SubRuns      int      // >0 when one call explored several runs (fault enumeration)
 	ExtraSigs    []string // signatures of the non-trivial sub-runs
@@ -67,24 +68,24 @@ type KnownFinding struct {
 
 // WorkerReport is written by a worker for the driver.
 type WorkerReport struct {
-	Property     string         `json:"property"`
-	World        string         `json:"world"`
-	Worker       int            `json:"worker"`
-	Runs         int            `json:"runs"`
-	Nontrivial   int            `json:"nontrivial"`
-	Sigs         []string       `json:"sigs"` // hashes of distinct nontrivial signatures
-	Stats        map[string]int `json:"stats"`
-	Steps        int64          `json:"steps"`
-	SimNanos     int64          `json:"sim_nanos"`
-	WallS        float64        `json:"wall_s"`
-	Violations   []string       `json:"violations"` // replay file paths
-	Known        map[string]int `json:"known"`      // finding key -> count
+	Property     string            `json:"property"`
+	World        string            `json:"world"`
+	Worker       int               `json:"worker"`
+	Runs         int               `json:"runs"`
+	Nontrivial   int               `json:"nontrivial"`
+	Sigs         []string          `json:"sigs"` // hashes of distinct nontrivial signatures
+	Stats        map[string]int    `json:"stats"`
+	Steps        int64             `json:"steps"`
+	SimNanos     int64             `json:"sim_nanos"`
+	WallS        float64           `json:"wall_s"`
+	Violations   []string          `json:"violations"` // replay file paths
+	Known        map[string]int    `json:"known"`      // finding key -> count
 	KnownReplays map[string]string `json:"known_replays"`
-	Infra        []string       `json:"infra"`
-	Samples      []string       `json:"samples"`
-	States       []string       `json:"states"`
-	Inconclusive int            `json:"inconclusive"`
-	FirstSeed    uint64         `json:"first_seed"`
+	Infra        []string          `json:"infra"`
+	Samples      []string          `json:"samples"`
+	States       []string          `json:"states"`
+	Inconclusive int               `json:"inconclusive"`
+	FirstSeed    uint64            `json:"first_seed"`
 }
 
 func strHash(s string) uint64 {
@@ -139,6 +140,7 @@ func Main(world string, run RunFunc) {
 		}
 		return false
 	}
+	rl := newRaceLog()
 	rep := &WorkerReport{Property: *prop, World: world, Worker: *worker, Stats: map[string]int{}, Known: map[string]int{}, KnownReplays: map[string]string{}}
 	sigs := map[string]bool{}
 	states := map[string]bool{}
@@ -164,6 +166,7 @@ func Main(world string, run RunFunc) {
 		core.ArmWatchdog(true)
 		res := run(*prop, *tier, c, *one >= 0)
 		core.ArmWatchdog(false)
+		raceSeen := applyRaceReports(rl, res)
 		if res.SubRuns > 0 {
 			rep.Runs += res.SubRuns
 		} else {
@@ -210,6 +213,21 @@ func Main(world string, run RunFunc) {
 			knownF := isKnown(res.Viol.Oracle, res.Key)
 			if knownF && rep.Known[res.Key] > 0 {
 				rep.Known[res.Key]++
+				continue
+			}
+			if raceSeen {
+				// the detector reports each racy pair once per process: no in-process shrinking; the recorded
+				// choices are the replay file, confirmed by the driver in a fresh process
+				rp := saveReplay(world, *prop, *tier, s, c.Rec, res, *replayDir)
+				if knownF {
+					rep.Known[res.Key]++
+					rep.KnownReplays[res.Key] = rp
+				} else if rp != "" {
+					rep.Violations = append(rep.Violations, rp)
+					if len(rep.Violations) >= 3 {
+						break
+					}
+				}
 				continue
 			}
 			// a new violation deserves a well minimised trace; a known finding only needs a replayable one
@@ -273,14 +291,79 @@ func dumpHang(world, prop, tier, dir string) {
 		return
 	}
 	rec := append([]uint32(nil), curRun.c.Rec...)
-	r := &Replay{Property: prop, World: world, Tier: tier, Seed: curRun.seed, Choices: rec, Hang: true,
-		Violation: &core.Violation{Oracle: "hang", Message: "a task neither reached a scheduling point nor ended within the wall-clock watchdog"},
-		OrigLen: len(rec)}
+	site, stack := hangSite()
+	r := &Replay{Property: prop, World: world, Tier: tier, Seed: curRun.seed, Choices: rec, Hang: true, Key: "hang@" + site,
+		Violation: &core.Violation{Oracle: prop + ".hang", Message: "a task neither reached a scheduling point nor ended within the wall-clock watchdog; it is executing " + site},
+		OrigLen:   len(rec), Trace: strings.Split(stack, "\n")}
 	_ = os.MkdirAll(dir, 0o755)
 	p := filepath.Join(dir, fmt.Sprintf("%s-hang-%d.json", prop, curRun.seed))
 	b, _ := json.MarshalIndent(r, "", " ")
 	_ = os.WriteFile(p, b, 0o644)
-	fmt.Printf("HANG property=%s replay=%s\n", prop, p)
+	fmt.Printf("HANG property=%s key=hang@%s replay=%s\n", prop, site, p)
+}
+
+// hangSite finds the goroutine that is busy inside galaxy code and returns its innermost galaxy function.
+func hangSite() (string, string) {
+	buf := make([]byte, 1<<20)
+	n := runtime.Stack(buf, true)
+	for _, g := range strings.Split(string(buf[:n]), "\n\n") {
+		lines := strings.Split(g, "\n")
+		if len(lines) == 0 || !(strings.Contains(lines[0], "[running]") || strings.Contains(lines[0], "[runnable]")) {
+			continue
+		}
+		for _, l := range lines[1:] {
+			if strings.HasPrefix(l, "tkestack.io/galaxy/pkg/") || strings.HasPrefix(l, "tkestack.io/galaxy/cni/") {
+				f := l
+				if i := strings.LastIndex(f, "("); i > 0 {
+					f = f[:i]
+				}
+				return strings.TrimPrefix(f, "tkestack.io/galaxy/"), g
+			}
+		}
+	}
+	return "unknown", ""
+}
+
+// applyRaceReports turns race reports produced during the run into the run's verdict.
+func applyRaceReports(rl *raceLog, res *RunResult) bool {
+	reps := rl.newReports()
+	if len(reps) == 0 {
+		return false
+	}
+	for _, r := range reps {
+		if !r.InGalaxy {
+			if res.Infra == "" {
+				res.Infra = "data race inside the harness (no galaxy frame): " + firstLines(r.Text, 30)
+			}
+			continue
+		}
+		if res.Viol == nil {
+			res.Viol = &core.Violation{Oracle: "C19.data-race", Message: firstLines(r.Text, 60), Step: res.Steps}
+			res.Key = r.Key
+		}
+	}
+	return res.Viol != nil && res.Viol.Oracle == "C19.data-race"
+}
+
+func firstLines(s string, n int) string {
+	ls := strings.Split(s, "\n")
+	if len(ls) > n {
+		ls = ls[:n]
+	}
+	return strings.Join(ls, "\n")
+}
+
+// saveReplay writes an unminimised replay file.
+func saveReplay(world, prop, tier string, seed uint64, rec []uint32, res *RunResult, dir string) string {
+	r := &Replay{Property: prop, World: world, Tier: tier, Seed: seed, Choices: append([]uint32(nil), rec...), Violation: res.Viol, Key: res.Key,
+		OrigLen: len(rec), Trace: res.Trace}
+	_ = os.MkdirAll(dir, 0o755)
+	p := filepath.Join(dir, fmt.Sprintf("%s-%s-%d.json", prop, sanitize(res.Viol.Oracle+"-"+res.Key), seed))
+	b, _ := json.MarshalIndent(r, "", " ")
+	if err := os.WriteFile(p, b, 0o644); err != nil {
+		return ""
+	}
+	return p
 }
 
 func sameFailure(a *RunResult, oracle, key string) bool {
@@ -416,8 +499,10 @@ func doReplay(path string, run RunFunc) int {
 	c := core.ReplayChoices(r.Seed, r.Choices)
 	curRun.c = c
 	core.ArmWatchdog(true)
+	rl := newRaceLog()
 	res := run(r.Property, r.Tier, c, true)
 	core.ArmWatchdog(false)
+	applyRaceReports(rl, res)
 	for _, l := range res.Trace {
 		fmt.Println(l)
 	}
